@@ -122,6 +122,10 @@ func (m *UnsubscribeMessage) Decode(src []byte) (int, error) {
 	}
 
 	//this.packetId = binary.BigEndian.Uint16(src[total:])
+	if m.remlen < 2 {
+		return total, fmt.Errorf("unsubscribe/Decode: Insufficient remaining length. Expecting at least %d, got %d", 2, m.remlen)
+	}
+
 	m.packetID = src[total : total+2]
 	total += 2
 
